@@ -7,9 +7,9 @@ From Coq Require Import Lia Permutation.
 
 (* coefficients of a product with a single string on the left / on the right *)
 Lemma coef_left1 N x m T : all_n N m -> length x = N -> length T = N ->
-  coef (prod_terms [(g1, x)] m) T = gmul (coef m (smul x T)) (phase x (smul x T)).
+  coef (prod_terms [(g1, x)] m) T = gmul (phase x (smul x T)) (coef m (smul x T)).
 Proof.
-  intros Hm Lx LT. cbn [prod_terms flat_map fst snd]. rewrite app_nil_r, coef_map. cbn [fst snd]. unfold coef at 2.
+  intros Hm Lx LT. cbn [prod_terms flat_map fst snd]. rewrite app_nil_r, coef_map. cbn [fst snd]. unfold coef.
   rewrite <- (gsum_scale m _ (phase x (smul x T))). rewrite (gsum_ext _ _ (fun t => gmul (phase x (smul x T)) (if pstr_eqb (smul x T) (snd t) then fst t else g0))); [apply gsum_ext; intros; gring|].
   intros t Ht. assert (Lt := Hm t Ht).
   destruct (pstr_eqb T (smul x (snd t))) eqn:E1.
@@ -18,7 +18,7 @@ Proof.
     assert (T = smul x (snd t)) by (rewrite <- E2; symmetry; apply smul_cancel; congruence). subst T. rewrite pstr_eqb_refl in E1. discriminate.
 Qed.
 Lemma coef_right1 N x m T : all_n N m -> length x = N -> length T = N ->
-  coef (prod_terms m [(g1, x)]) T = gmul (coef m (smul x T)) (phase (smul x T) x).
+  coef (prod_terms m [(g1, x)]) T = gmul (phase (smul x T) x) (coef m (smul x T)).
 Proof.
   intros Hm Lx LT. unfold prod_terms. rewrite coef_flat_map. unfold coef at 2.
   rewrite <- (gsum_scale m _ (phase (smul x T) x)). rewrite (gsum_ext _ _ (fun t => gmul (phase (smul x T) x) (if pstr_eqb (smul x T) (snd t) then fst t else g0))); [apply gsum_ext; intros; gring|].
@@ -41,7 +41,7 @@ Proof.
   replace (gmul c (1%Z, 0%Z)) with c in E by gring. exact E.
 Qed.
 Lemma two_cancel c : gmul (2, 0)%Z c = g0 -> c = g0.
-Proof. intros H. destruct c as [a b]. unfold gmul, g0 in *. cbn [fst snd] in H. injection H as H1 H2. f_equal; lia. Qed.
+Proof. intros H. destruct c as [a b]. unfold gmul, g0 in H. assert (H1 := f_equal fst H). assert (H2 := f_equal snd H). cbn [fst snd] in H1, H2. unfold g0; f_equal; lia. Qed.
 
 Section Inv.
 Variables (n : nat) (g : pstr) (m : lin).
@@ -78,10 +78,10 @@ Proof.
   assert (P2 : phase x2 (A ++ smul g B) = phase g (smul g B)).
   { unfold x2. rewrite phase_app by (rewrite identity_length; congruence). rewrite <- LA at 1. rewrite phase_id_l. gring. }
   assert (Q1 : phase (smul g A ++ B) x1 = if anti_l g A then gneg (phase g (smul g A)) else phase g (smul g A)).
-  { unfold x1. rewrite phase_app by congruence. rewrite <- LB at 2. rewrite phase_id_r, (phase_swap (smul g A) g).
+  { unfold x1. rewrite phase_app by congruence. rewrite <- LB at 1. rewrite phase_id_r, (phase_swap (smul g A) g).
     rewrite anti_l_smul_l by congruence. rewrite anti_l_self, (anti_l_sym A g). cbn [xorb]. destruct (anti_l g A); gring. }
   assert (Q2 : phase (A ++ smul g B) x2 = if anti_l g B then gneg (phase g (smul g B)) else phase g (smul g B)).
-  { unfold x2. rewrite phase_app by (rewrite identity_length; congruence). rewrite <- LA at 2. rewrite phase_id_r, (phase_swap (smul g B) g).
+  { unfold x2. rewrite phase_app by (rewrite identity_length; congruence). rewrite <- LA at 1. rewrite phase_id_r, (phase_swap (smul g B) g).
     rewrite anti_l_smul_l by congruence. rewrite anti_l_self, (anti_l_sym B g). cbn [xorb]. destruct (anti_l g B); gring. }
   rewrite S1, S2, P1, P2, Q1, Q2 in EC.
   apply two_cancel.
